@@ -5514,6 +5514,9 @@ evhttp_uri_join(const struct evhttp_uri *uri, char *buf, size_t limit)
 		if (uri->userinfo)
 			evbuffer_add_printf(tmp, "%s@", uri->userinfo);
 		evbuffer_add_printf(tmp, "unix:%s:", uri->unixsocket);
+
+		if (uri->path && uri->path[0] != '/' && uri->path[0] != '\0')
+			goto err;
 	}
 	else
 #endif
@@ -5532,6 +5535,15 @@ evhttp_uri_join(const struct evhttp_uri *uri, char *buf, size_t limit)
 			evbuffer_add_printf(tmp,":%d", uri->port);
 
 		if (uri->path && uri->path[0] != '/' && uri->path[0] != '\0')
+			goto err;
+	} else if (uri->path) {
+		/* RFC 3986 3.3: without an authority the path cannot begin
+		 * with "//" (it would be read back as an authority), and
+		 * without a scheme either its first segment cannot contain a
+		 * colon (it would be read back as a scheme). */
+		if (uri->path[0] == '/' && uri->path[1] == '/')
+			goto err;
+		if (!uri->scheme && !path_matches_noscheme(uri->path))
 			goto err;
 	}
 
